@@ -183,7 +183,7 @@ class C12(Spec):
         'annotation rules are transcribed (take/drop/[::q]) and compared on every case',
         'filter outputs, RMS values and matrix products are matched against the whole-signal call of the same kernel '
         'to 1e-12 (relative to the signal scale); selections, derivative and threshold booleans bit-exactly',
-        'downsample, decimate, iirfilter and rms are modelled as repaired by notes/C12_fix_1..4.diff',
+        'downsample, decimate, iirfilter and rms are modelled as repaired by notes/C12_fix_1..5.diff (5: the filter state is kept over an empty chunk)',
     ]
     ASSUMPTIONS = [
         'input stream is well formed: one annotation record, chunk k+1 starts where chunk k ends (other streams are '
@@ -191,7 +191,7 @@ class C12(Spec):
         'derivative and event_rate need annotated input (they read fs off the data); auto_th needs an explicit fs; '
         'mc_reference needs 2-D data; iirfilter needs a non-empty first chunk; block sizes / factors are >= 1',
         'rms: annotated input starts at a multiple of the block length (s0/n is a true division in the code)',
-        'event_rate: every event lies inside the span of the Events object that carries it; the Ellipsis reset '
+        'event_rate: every event lies inside the span of the Events object that carries it (listed in any order), one sampling rate; the Ellipsis reset '
         'signal of blocked/discard is outside the property',
     ]
     RULE = ('per stage x array kind (plain 1-D, plain 2-D, annotated 1-D, annotated 2-D): every composition of short '
@@ -266,11 +266,9 @@ class C12(Spec):
                     left = n
                     while left > 0:
                         k = min(left, rng.choice([0, 1, 1, 2, 2, 3, 4, 5, 7, 11, 19]))
-                        if k == 0 and stage in LFILTER:
-                            continue      # see known finding C12-lfilter-empty-chunk
                         parts.append(k)
                         left -= k
-                    if rng.random() < 0.2 and stage not in LFILTER:
+                    if rng.random() < 0.2:
                         parts.append(0)
                     yield self._mk(stage, arr, n, parts, p1, p2, rng.choice([0, 0, 6, 12, 35]), rng.randrange(10 ** 6))
         # (c) boundary-targeted: a chunk edge at every offset around multiples of the parameter
@@ -300,9 +298,13 @@ class C12(Spec):
                     if len(parts) > 1:
                         gaps[rng.randrange(1, len(parts))] = rng.choice([-2, -1, 1, 3])
                     yield self._mk(stage, arr, n, parts, p1, p2, 6, rng.randrange(10 ** 6), gaps)
-        # (d') the recorded finding: an empty chunk in front of more data corrupts the carried lfilter state
-        for stage, arr in (('iirfilter', '1d'), ('decimate', 'pd2')):
-            yield self._mk(stage, arr, 12, [4, 0, 8], 2, 1, 0, 7)
+        # (d') regression for the former finding C12-lfilter-empty-chunk (repaired by notes/C12_fix_5.diff):
+        # scipy's lfilter reports a garbage final state for an empty chunk; the stages must not adopt it
+        for stage in LFILTER:
+            for arr in arr_kinds(stage):
+                yield self._mk(stage, arr, 12, [4, 0, 8], 2, 1, 0, 7)
+                yield self._mk(stage, arr, 9, [1, 0, 0, 3, 0, 5, 0], 3, 1, 6, 3)
+        yield self._mk('decimate', 'pd1', 7, [0, 2, 0, 5], 2, 1, 0, 5)
         # (e) event_rate
         span = 9 if quick else 12
         pairs = [(3, 2)] if quick else [(3, 2), (4, 4), (2, 3)]
@@ -336,6 +338,11 @@ class C12(Spec):
                 g[rng.randrange(1, len(parts))] = rng.choice([-1, 2])
                 c['gaps'] = g
                 c['s0'] = max(c['s0'], 3)       # sample positions stay non-negative
+            elif rng.random() < 0.03 and len(parts) > 1:
+                # malformed: one Events object of the stream has another sampling rate (fs/q)
+                q = [1] * len(parts)
+                q[rng.randrange(1, len(parts))] = rng.choice([2, 3])
+                c['fsq'] = q
             yield c
 
     # ------------------------------------------------------------------ lines
@@ -345,10 +352,11 @@ class C12(Spec):
             pos = c['s0']
             off = 0
             gaps = c.get('gaps') or [0] * len(c['chunks'])
-            for k, g in zip(c['chunks'], gaps):
+            fsq = c.get('fsq') or [1] * len(c['chunks'])
+            for k, g, q in zip(c['chunks'], gaps, fsq):
                 a, b = pos + g, pos + g + k
                 evs = [e + c['s0'] + (a - (c['s0'] + off)) for e in c['events'] if off <= e < off + k]
-                lines.append(f"ev {a} {b} {','.join(map(str, evs)) if evs else '-'}")
+                lines.append(f"ev {a} {b} {','.join(map(str, evs)) if evs else '-'}" + (f' {q}' if q != 1 else ''))
                 pos = b
                 off += k
             return lines
@@ -487,8 +495,9 @@ class C12(Spec):
             if dead:
                 lines.append('err Dead')
                 continue
-            _, a, b, evs = ml.split()
+            _, a, b, evs, *q = ml.split()
             evs = [] if evs == '-' else [int(v) for v in evs.split(',')]
+            fs_in = FS / int(q[0]) if q else FS
             # An Events block is a set of (kind, sample) tuples: nothing requires them to be listed
             # chronologically.  'rev' lists them newest first, 'split' lists alternate events first
             # (like "all rising before all falling"); the model (a count per window) is order-free.
@@ -499,7 +508,7 @@ class C12(Spec):
                 evs = evs[0::2] + evs[1::2]
             n0 = len(out)
             try:
-                co.send(P.Events([('e', s) for s in evs], int(a), int(b), FS))
+                co.send(P.Events([('e', s) for s in evs], int(a), int(b), fs_in))
             except StopIteration:
                 lines.append('err Dead')
                 dead = True
@@ -535,7 +544,7 @@ class C12(Spec):
     # ------------------------------------------------------------------ oracle
     @staticmethod
     def _wellformed(c):
-        if any(c.get('gaps') or []):
+        if any(c.get('gaps') or []) or any(q != 1 for q in c.get('fsq') or []):
             return False
         if c['kind'] == 'iirfilter' and c['chunks'] and c['chunks'][0] == 0:
             return False
@@ -636,13 +645,9 @@ class C12(Spec):
         return len(c['chunks']) >= 2 and any(l.startswith('ok ') and l != 'ok -' for l in out[1:])
 
     def known(self, c, failure):
-        # scipy.signal.lfilter returns a corrupt final state zf for an empty input array, so an empty
-        # chunk followed by more data makes iirfilter / decimate continue from a wrong filter state.
-        if (c['kind'] in LFILTER and 0 in c['chunks'][:-1] and not any(c.get('gaps') or [])
-                and 'differs from the whole-signal computation' in failure):
-            first_empty = c['chunks'].index(0)
-            if sum(c['chunks'][first_empty:]) > 0:
-                return 'C12-lfilter-empty-chunk'
+        # No recorded finding is left for C12: the former C12-lfilter-empty-chunk (iirfilter / decimate adopting
+        # the garbage final state scipy's lfilter reports for an empty chunk) is repaired by
+        # notes/C12_fix_5.diff and is a plain VIOLATION on a tree without that guard.
         return None
 
     # ------------------------------------------------------------------ search
@@ -651,6 +656,7 @@ class C12(Spec):
         for _ in range(40):
             d = dict(c)
             d.pop('gaps', None)
+            d.pop('fsq', None)
             m = max(1, n + rng.randint(-2, 2))
             parts = rng.chunks(m, 8)
             d['chunks'] = parts
@@ -674,6 +680,7 @@ class C12(Spec):
         def mk(parts, **kw):
             d = dict(c)
             d.pop('gaps', None)
+            d.pop('fsq', None)
             d['chunks'] = parts
             if ev:
                 tot = sum(parts)
@@ -710,7 +717,8 @@ class C12(Spec):
     def describe(self, c):
         if c['kind'] == 'event_rate':
             return (f"event_rate(block_size={c['p1']}, block_step={c['p2']}) start={c['s0']} spans={c['chunks']} "
-                    f"events={c['events']}")
+                    f"events={c['events']}" + (f" order={c['evorder']}" if c.get('evorder') else '')
+                    + (f" gaps={c['gaps']}" if c.get('gaps') else '') + (f" fs/q={c['fsq']}" if c.get('fsq') else ''))
         return (f"{c['kind']}(p1={c['p1']}, p2={c['p2']}) on {c['arr']}{'' if c.get('lab', 1) else ' (unlabelled)'} stream N={c['N']} s0={c['s0']} "
                 f"chunks={c['chunks']}" + (f" gaps={c['gaps']}" if c.get('gaps') else ''))
 
